@@ -2,14 +2,14 @@
 """Writes MANIFEST.json from the table below (kept in one place so that the file stays valid)."""
 import json, os
 ROOT = os.path.dirname(os.path.dirname(os.path.abspath(__file__)))
-TB = 'Trusted (listed verbatim in evidence.coverage.trusted_base): rabuf BufFile byte-array model T1, vu64 codec T2 (itself discharged by Kani U0 on the dependency), std pieces T3 (to_vec, Result::map, write_all/read_exact, OpenOptions, next_power_of_two), derived comparisons T4, 64-bit LE target T5, extraction rules R1-R14 and `verus --no-lifetime` T6. Machine-arithmetic hypotheses are explicit requires (files < 2^60 bytes, < 2^64-2 entries, keys <= 2^16, values <= 2^24 bytes).'
+TB = 'Trusted (listed verbatim in evidence.coverage.trusted_base): rabuf BufFile byte-array model T1, vu64 codec T2 (itself discharged by Kani U0 on the dependency), std pieces T3 (to_vec, Result::map, write_all/read_exact, OpenOptions, next_power_of_two), derived comparisons T4, 64-bit LE target T5, extraction rules R1-R15 and `verus --no-lifetime` T6. Machine-arithmetic hypotheses are explicit requires (files < 2^60 bytes, < 2^64-2 entries, keys <= 2^16, values <= 2^24 bytes).'
 T = 'contract-based deductive verification: Verus requires/ensures/invariants on functions extracted verbatim from /repo (tools/vx.py), Kani harnesses for idioms Verus rejects'
 def C(cat, text, ref, note=TB, technique=T):
     return dict(cat=cat, text=text, ref=ref, note=note, technique=technique)
 CLAIMED = {
  "C01": C("proof", "put_kt / get_kt / del_kt / includes_key_kt / len of the real FileDbXxxInner are verified (Verus) to refine an ideal map: under the representation invariant map_ok (some witness makes the three files a well-formed map) every call preserves the invariant and its result / effect is lookup, insert, remove on the abstract map, for every witness, every key <= 64 KiB, every value <= 16 MiB, every table size; all loops carry decreases clauses (no hang); every panic/assert site in the call closure is an obligation (no panic). The per-key-type obligations behind the DbMapKeyType contract (cmp_u8 <=> equal bytes, conversions) are discharged by Kani on the five real key types. Known findings K1a/K1b (relocation panics) are reported as KNOWN-FINDING.", "DESIGN.md §5 C01, §10"),
  "C02": C("proof", "Code-level part: the three open_with_params functions are verified to write nothing into a non-empty file (bytes == disk content, !unflushed), to check both signatures, to adopt the stored bucket count whatever the parameters say, and to create exactly the documented fresh images otherwise; the OpenOptions shim records truncate(false). map_ok and the abstract lookup are functions of the bytes and the stored bucket count, so a reopened map has the view it had at the drop. rabuf Drop/flush, the OS and a second process are assumed (T1).", "DESIGN.md §5 C02"),
- "C03": C("proof", "flush / sync_all / sync_data of the map are verified: Ok implies all three files flushed (and OS-synced for sync_*), dirty_ok (buffered updates ==> dirty flag) is established by open and preserved by put_kt / del_kt, so a flush after any history writes every update; three freshly created files are proved to be a valid empty map. The database-level fan-out (FileDb::sync_* over Rc<RefCell> registries) is outside both verifiers and is not decided.", "DESIGN.md §5 C03"),
+ "C03": C("proof", "flush / sync_all / sync_data of the map are verified: Ok implies all three files flushed (and OS-synced for sync_*), dirty_ok (buffered updates ==> dirty flag) is established by open and preserved by put_kt / del_kt, so a flush after any history writes every update; three freshly created files are proved to be a valid empty map. The database-level fan-out (FileDb::sync_* over Rc<RefCell> registries) is outside both verifiers; a bounded stand-in (scenario dbsync: ten maps of all five key types, snapshot after every database-level sync) runs with every check and is labelled bounded.", "DESIGN.md §5 C03"),
  "C04": C("proof", "next_key_piece_offset is verified for every table size n >= 8 (symbolic n): it returns the next non-empty bucket, skipping only empty ones, never reads outside the file; DbXxxIterMut::next_piece_offset / next and the four wrappers are verified against the iteration order (bucket ascending, chain order): the k-th call yields the k-th entry with its current value, remaining == len - k before every step (size_hint), None forever after the end; distinct positions are distinct entries (lemma_entry_unique).", "DESIGN.md §5 C04"),
  "C05": C("proof", "map_ok is the property's list (acyclic chains of keys hashing to their bucket, no key twice, count == number of chained keys, bitmap, every key record owns an in-bounds value record, no orphan records) and is proved to be preserved by put_kt and del_kt and established by creation; record writers are proved at byte level against the documented layout (images incl. zero padding), readers are proved inverse to writers.", "DESIGN.md §5 C05"),
  "C06": C("proof", "heap_ok (slots tile [192,len) without gaps/overlaps, every slot is used or on exactly the free list of its size class, list heads in the header) is proved preserved by push_free_piece_list, pop_free_piece_list(+large, first fit with unlink from the middle), write_piece, delete_piece for both files; a file grows only when the pop found no slot (w_alloc); a positive slot size makes the statistics walk advance (Kani one-step harness). The quantitative bound on file size is a corollary that is argued, not mechanised.", "DESIGN.md §5 C06"),
@@ -19,7 +19,7 @@ CLAIMED = {
  "C10": C("proof", "Kani on the real conversions, complete over all 2^64 values: integer -> key -> integer round trips (u64, i64, vu64), by-value == by-reference, stored-key comparison Equal <=> integers equal, hash == reference for every integer key; byte/string keys: comparison and from_bytes/as_bytes for the listed length pairs (bounded part, reported separately).", "DESIGN.md §5 C10"),
  "C12": C("proof", "Header writers are proved to produce the documented images (constants spelled out in the spec, not imported), offset/size codecs are proved (x/8 in vu64, readers inverse), bucket placement is hash % n; Kani proves the mixer, one hasher chunk, and the whole-key hash of every integer key against a reference that is anchored to golden vectors computed from the pinned release; string keys for the listed lengths (bounded part).", "DESIGN.md §5 C12"),
  "C13": C("proof", "check_*_header are proved: Ok implies both 8-byte signatures equal the expected ones (so every single-byte mutation is refused) and no byte is written; open_with_params calls them for every non-empty file before a handle exists. Kani evaluates the five real signature() functions: pairwise distinct except the recorded finding K2 (DbU64 / DbVu64).", "DESIGN.md §5 C13"),
- "C14": C("other", "Bounded only (never counted as proved): the real default methods bulk_get / bulk_delete / bulk_put / put_from_iter run under CBMC on an array-backed ideal map with batches of two one-byte keys; the *_string variants and larger batches are not covered.", "DESIGN.md §5 C14", technique="Kani bounded harnesses on the real trait default methods (bounded stand-in, labelled bounded)"),
+ "C14": C("other", "Bounded only (never counted as proved): the real default methods bulk_get / bulk_delete / bulk_put / put_from_iter run under CBMC on an array-backed ideal map with batches of two and three one-byte keys (every order); the scenario `bulk` of the replay binary runs bulk_get / bulk_get_string / bulk_put / bulk_delete on the file-backed map for every permutation of 3..5 keys (one absent) against the element-wise calls. Larger batches are not covered.", "DESIGN.md §5 C14, §11", technique="Kani bounded harnesses on the real trait default methods + concrete scenarios on the real crate (bounded stand-in, labelled bounded)"),
  "C15": C("proof", "Frame postconditions same_files (nothing but the cursors of the three files moved; bytes, flags and dirty unchanged) are proved for get_kt, includes_key_kt, len, find_in_hash_buckets_kt, load_*, iterator steps, count_of_free_piece_list, htx_filling_rate_per_mill, read_fill_buffer, and same_bytes for flush/sync; every seek/read target is proved inside the file (a seek beyond the end would extend it).", "DESIGN.md §5 C15"),
  "C16": C("proof", "The shims let flush/sync of a buffered file fail (healthy is unconstrained): flush/sync_* of the map are proved to return Ok only if all three files were flushed, to keep the dirty flag on Err, and never to change a byte; a later successful call gives C03's postcondition.", "DESIGN.md §5 C16"),
  "C17": C("proof", "count_of_free_piece_list is proved to return the length of the free list (with termination), htx_filling_rate_per_mill the number of non-empty buckets and count*1000/n; one step of the slot walk is proved by Kani; the histogram accumulators are bounded harnesses. The KeyFile/ValueFile count_of_free_*_piece loops and the *_stats walkers (dyn PieceA, iterator adapters) are argued from these, not proved.", "DESIGN.md §5 C17"),
@@ -55,7 +55,7 @@ m = {
  "engines": [{"name": "vx+verus+kani", "path": "/verif/tools", "serves_properties": sorted(CLAIMED), "kind_free_text": "mechanical extractor/contract splicer (tools/vx.py) -> Verus (z3) on the real function bodies; Kani (CBMC) harnesses on a scratch copy of the crate for idioms Verus rejects"}],
  "checks": checks,
  "not_applicable": na,
- "notes": "Exit codes of ./check: 0 all obligations discharged (or listed known finding), 1 VIOLATION, 2 UNDECIDED (lost anchor / unsupported construct / resource limit; never on the unchanged tree).",
+ "notes": "Exit codes of ./check: 0 all obligations discharged (or listed known finding), 1 VIOLATION, 2 UNDECIDED (lost anchor / unsupported construct / resource limit; never on the unchanged tree). Every check also runs the property's bounded stand-in scenarios of /verif/replay on the real crate (evidence.coverage.bounded_parts, never counted as proved); a failing scenario or a Kani counterexample replayed natively is the failing input attached to a VIOLATION, otherwise the line ends with no-failing-input-found. Mutation testing of the checks: /verif/seeded/, DESIGN.md §11.",
 }
 json.dump(m, open(os.path.join(ROOT, "MANIFEST.json"), "w"), indent=1)
 print("claimed:", sorted(CLAIMED))
